@@ -70,6 +70,12 @@ def rule_layprefix(run):
                 if isinstance(x, ast.Assign) and any(isinstance(t, ast.Name) and t.id in knames for t in x.targets):
                     more = set(y.id for y in ast.walk(x.value) if isinstance(y, ast.Name)) - knames
                     if more: knames |= more; changed = True
+                # control dependence: a local tested by an `if` that governs a relevant statement (a cached `self.simulator == ...`)
+                if isinstance(x, ast.If) and relevant(x):
+                    more = set(y.id for y in ast.walk(x.test) if isinstance(y, ast.Name)) - knames - set(['self', 'reset'])
+                    more = set(nm for nm in more if any(isinstance(a, ast.Assign) and any(isinstance(t, ast.Name) and t.id == nm for t in a.targets)
+                                                        and any(is_self_attr(z, 'simulator') for z in ast.walk(a.value)) for a in walk_no_nested(fi.node)))
+                    if more: knames |= more; changed = True
 
         def slice_of(stmts):
             out = []
